@@ -22,7 +22,7 @@ enum { ST_UNUSED, ST_LIVE, ST_EXITED };
 struct Th {
 	pthread_t pth; int go; int state;
 	bool (*pred)(void*); void* parg; bool timed; double deadline; bool timedout; // pending blocking condition (pred == 0: none)
-	bool yielding; bool cancel; bool cancellable;
+	bool yielding; bool cancel; bool cancellable; bool joined;
 	void* (*fn)(void*); void* arg;
 	uint64_t npoints;
 };
@@ -38,6 +38,7 @@ static Result* res_ = 0;
 static Result scratch_; // recording buffers reused across executions (no allocation while a body runs)
 static void (*fatal_handler)(const char*, const std::string&) = 0;
 static uint64_t (*state_probe)() = 0;
+static bool early_timeouts = true;
 static const double VBASE = 1700000000.0;
 
 // exploration-wide state cache (set by explore())
@@ -97,6 +98,7 @@ static void fatal(const char* what) {
 }
 void set_fatal_handler(void (*h)(const char*, const std::string&)) { fatal_handler = h; }
 void set_state_probe(uint64_t (*p)()) { state_probe = p; }
+void set_early_timeouts(bool on) { early_timeouts = on; }
 
 static bool enabled(int t) {
 	Th& th = T[t];
@@ -142,6 +144,9 @@ static int decide(int cur, bool curAlive, int kind) {
 			}
 			fatal("DEADLOCK");
 		}
+		// a timed waiter may also time out while other threads are merely slow: offered as extra alternatives that cost one deviation
+		int ntimer = 0;
+		if (early_timeouts) for (int t = 0; t < nT && n < MAXT; t++) if (T[t].state == ST_LIVE && T[t].pred && T[t].timed && !T[t].yielding && !enabled(t)) { list[n++] = t; ntimer++; }
 		if (++nsteps > (uint64_t)step_limit_) fatal("STEP_LIMIT");
 		size_t pos = res_->choices.size();
 		int c = 0;
@@ -154,11 +159,13 @@ static int decide(int cur, bool curAlive, int kind) {
 			if (it != seen_states.end() && it->second >= remaining) cut_here = true;
 			else seen_states[h] = remaining;
 		}
-		PointInfo pi; pi.nenabled = (uint8_t)n; pi.running_enabled = runEn; pi.chosen = (uint8_t)c; pi.kind = (uint8_t)kind;
-		if (cut_here && pos >= prefix_.size()) pi.nenabled = 1; // do not branch below an already expanded state
+		PointInfo pi; pi.nenabled = (uint8_t)n; pi.running_enabled = runEn; pi.chosen = (uint8_t)c; pi.kind = (uint8_t)kind; pi.ntimer = (uint8_t)ntimer;
+		if (cut_here && pos >= prefix_.size()) { pi.nenabled = 1; pi.ntimer = 0; } // do not branch below an already expanded state
 		res_->points.push_back(pi); res_->choices.push_back((uint8_t)c);
 		int tid = list[c];
-		if (runEn && tid != cur) res_->preemptions++;
+		bool timerWake = c >= n - ntimer;
+		if ((runEn && tid != cur) || (timerWake && !runEn)) res_->preemptions++;
+		if (timerWake && T[tid].deadline > vclock) vclock = T[tid].deadline;
 		for (int t = 0; t < nT; t++) if (t != tid) T[t].yielding = false;
 		return tid;
 	}
@@ -250,11 +257,11 @@ ExploreStats explore(const std::function<void()>& body, const std::function<void
 		// alternatives at every point after the replayed prefix
 		int pre = 0;
 		std::vector<int> preBefore(x.points.size());
-		for (size_t i = 0; i < x.points.size(); i++) { preBefore[i] = pre; if (x.points[i].running_enabled && x.points[i].chosen != 0) pre++; }
+		for (size_t i = 0; i < x.points.size(); i++) { preBefore[i] = pre; const PointInfo& q = x.points[i]; if ((q.running_enabled && q.chosen != 0) || (!q.running_enabled && q.chosen >= q.nenabled - q.ntimer && q.ntimer)) pre++; }
 		for (size_t i = x.points.size(); i-- > prefix.size();) {
 			const PointInfo& p = x.points[i];
 			for (int alt = p.nenabled - 1; alt >= 1; alt--) {
-				int cost = preBefore[i] + (p.running_enabled ? 1 : 0);
+				int cost = preBefore[i] + ((p.running_enabled || alt >= p.nenabled - p.ntimer) ? 1 : 0);
 				if (bound >= 0 && cost > bound) { st.pruned_by_bound++; continue; }
 				std::vector<uint8_t> np(x.choices.begin(), x.choices.begin() + i);
 				np.push_back((uint8_t)alt);
@@ -300,12 +307,14 @@ extern "C" int pthread_create(pthread_t* th, const pthread_attr_t* attr, void* (
 }
 extern "C" int pthread_join(pthread_t th, void** ret) {
 	resolve();
-	if (managed()) for (int t = 0; t < nT; t++) if (t != me && pthread_equal(T[t].pth, th)) { block_until(pred_thread_exited, &T[t], -1, 2, false); break; }
+	int found = -1;
+	if (managed()) for (int t = nT - 1; t >= 0; t--) if (t != me && T[t].state != ST_UNUSED && !T[t].joined && pthread_equal(T[t].pth, th)) { found = t; break; } // newest first: the system reuses pthread_t values
+	if (found >= 0) { block_until(pred_thread_exited, &T[found], -1, 2, false); T[found].joined = true; }
 	return real_join(th, ret);
 }
 extern "C" int pthread_cancel(pthread_t th) {
 	if (managed()) {
-		for (int t = 0; t < nT; t++) if (T[t].state != ST_UNUSED && pthread_equal(T[t].pth, th)) { T[me].pred = 0; switch_point(3); if (T[t].state == ST_LIVE) T[t].cancel = true; return 0; }
+		for (int t = nT - 1; t >= 0; t--) if (T[t].state != ST_UNUSED && !T[t].joined && pthread_equal(T[t].pth, th)) { T[me].pred = 0; switch_point(3); if (T[t].state == ST_LIVE) T[t].cancel = true; return 0; }
 	}
 	static int (*real)(pthread_t) = 0; if (!real) *(void**)&real = dlsym(RTLD_NEXT, "pthread_cancel");
 	return real(th);
